@@ -89,6 +89,8 @@ Definition allow_list : list allow := [
   mkAllow "otto.Script.version" "otto.(*Script).unmarshalBinary" []
     "fills in the receiver Script from its serialised form; unexported and without callers: no Script that a runtime executes passes through it";
   mkAllow "otto.Script.program" "otto.(*Script).unmarshalBinary" [] "as otto.Script.version";
+  mkAllow "otto.Script.program" "otto.(*Script).marshalBinary" []
+    "hands the node tree to encoding/gob's Encoder, which only reads the value it encodes; unexported and without callers";
   mkAllow "otto.Script.filename" "otto.(*Script).unmarshalBinary" [] "as otto.Script.version";
   mkAllow "otto.Script.src" "otto.(*Script).unmarshalBinary" [] "as otto.Script.version";
   mkAllow "file.File.sm" "file.(*File).WithSourceMap" ["parser.newParser"]
